@@ -3,14 +3,14 @@
 import json, subprocess
 ALL = ["C%02d" % i for i in range(1, 21)]
 CLAIMED = {
- "C18": dict(level="exploration", technique="metamorphic runtime differential: one logical request history rendered through 8 HTTP/batch encodings, each on its own fresh engine behind httptest, compared with the direct service call and with a sys.System twin; negative-case matrix",
-   text="Generated /api/loc/* requests with arguments that need URL/JSON/YAML escaping are sent as query parameters (three URI forms), form body, JSON body, /api/json envelope, /api/yaml and batch element; status and normalised JSON must equal the direct call and the results of the corresponding System calls; every missing / ill-typed parameter, unknown URI and failing operation must yield an error response in every rendering that can express it.",
+ "C18": dict(level="exploration", technique="metamorphic runtime differential: one logical request history rendered through 20 HTTP/batch/direct encodings and uri spellings, each on its own fresh engine behind httptest, compared with the direct service call and with a sys.System twin; negative-case matrix",
+   text="Generated /api/loc/* requests with arguments that need URL/JSON/YAML escaping are sent as query parameters (three URI forms), form body, JSON body, YAML body sniffed at the operation URI, /api/json envelope, /api/yaml, batch element and whole-history batch, the uri also spelled without /api and with version prefixes wherever it travels as data; status and normalised JSON must equal the direct call and the results of the corresponding System calls; every missing / ill-typed parameter, non-string uri, unknown URI and failing operation must yield an error response in every rendering that can express it.",
    note="Generated ids and timing fields are normalised; renderings without JSON types (query, form) skip the ill-typed cases; events/retry and the admin/sys URIs are outside the /api/loc family exercised here.", ref="§5 C18"),
  "C17": dict(level="exploration", technique="twin-configuration differential over request histories (cache TTL x existence checking x state vs direct operation), forced and delayed schedules at verifhook points for concurrent first requests with load counting, porcupine register histories under overlapping requests; race detector",
-   text="The same generated histories are run through the System under every cache setting and directly on locations and must agree request by request; concurrent first requests (seeded delays and a forced interleaving with an opener parked inside the loading gap) must load once and lose no acknowledged write; overlapping requests under never/short TTLs are checked as per-key register histories.",
+   text="The same generated histories (including per-location cacheTTL properties and clearing a location) are run through the System under every cache setting and directly on locations and must agree request by request; concurrent first requests (seeded delays and a forced interleaving with an opener parked inside the loading gap) must load once and lose no acknowledged write; overlapping requests under never/short TTLs are checked as per-key register histories.",
    note="Loads are counted through GetStats().NewLocations, storage through PeekStorage; schedules are sampled plus one forced interleaving; stale instances after an eviction-in-use under finite TTLs are the open finding c17.release-evicts-in-use.", ref="§5 C17"),
  "C16": dict(level="exploration", technique="offline checker over timestamped Add/Rem/suspend/fire event logs of the running cron loop, structural invariant walks (Timeline under its lock; crolt jobs/time buckets key for key, also across close/reopen), overlay-injected in-package monitor for the Bolt-backed service",
-   text="Directed and random operation sequences run against the real firing loop of the in-memory cron (race detector on) and against the Bolt-backed service with harness-driven ticks; the logs are checked for early fires, fires after an early removal, exactly-once one-shots with canary-judged bounded progress, recurring jobs not ahead of their occurrences, and the pending structures are checked for sortedness, unique ids and bucket agreement after every operation and restart.",
+   text="Directed and random operation sequences run against the real firing loop of the in-memory cron (race detector on) and against the Bolt-backed service with harness-driven ticks and, in a second phase, with a concurrent work() loop against an endpoint that holds requests open while Add/Delete/Get run (Deletes issued while the job's request is in flight); the logs are checked for early fires, fires after an early removal, exactly-once one-shots with canary-judged bounded progress, recurring jobs not ahead of their occurrences, and the pending structures are checked for sortedness, unique ids and bucket agreement after every operation and restart.",
    note="Bounded progress uses generous grace and a canary; crolt's due time is the time in the job's own key; crash points inside one bolt transaction are bolt's guarantee.", ref="§5 C16"),
  "C15": dict(level="exploration", technique="runtime monitor with a recording Cronner (harness implementation of cron.Cronner) and a model of live scheduled rules: registrations compared after every step, ticks delivered for every current and former registration; canary-judged timed scenario on the real built-in cron",
    text="Generated histories over three locations sharing rule ids (add / overwrite scheduled<->ordinary<->fact / remove / cascade / clear / reload, persistent and ephemeral cron, both states) are checked step by step: registered == live scheduled rules per location, a tick runs exactly its rule in its own location, one-shots run once and vanish, stale ticks run nothing; the built-in cron is exercised with +1s rules of one id in two locations.",
@@ -25,7 +25,7 @@ CLAIMED = {
    text="For generated histories on {indexed, linear} x {memory, bolt} every prefix is a reload point, every storage write a crash point (judged per id: old or new value) and every storage call a fault point (the issuing operation must fail); within each history the enumeration of points is complete (bolt kill points sampled in quick, complete in thorough); histories themselves are sampled.",
    note="Trusts bolt's transaction atomicity; remote back ends out of reach; the live location is the reference for crash points.", ref="§5 C06"),
  "C20": dict(level="exploration", technique="offline checkers over timestamped event logs (sliding-window rate bound and recovery on [before, after] intervals), runtime invariants for capacity (size<=max, refusal without side effects) and throttle (at-most-once, pending bound), under the Go race detector",
-   text="Capacity histories around MaxFacts (sequential and concurrent adders), breaker runs with 1-16 concurrent callers and hostile arrival patterns logged with monotonic intervals and checked for any limit+1 admissions certainly inside one window and for refusals after certain age-out, and throttle runs with many submitters; held-on-K-runs assurance.",
+   text="Capacity histories around MaxFacts (sequential, and concurrent adders of facts and rules meeting at the boundary), breaker runs with 1-16 concurrent callers and hostile arrival patterns logged with monotonic intervals and checked for any limit+1 admissions certainly inside one window and for refusals after certain age-out, and throttle runs with many submitters whose waiting is counted independently of the throttle's own counter by a probe around its breaker; held-on-K-runs assurance.",
    note="Breaker verdicts need certainty from interval arithmetic (no wall-clock deadlines); refusals after age-out that the breaker's own whole-tick accounting cannot exclude are attributed to the open finding c20.breaker-slide-drops-remainder.", ref="§5 C20"),
  "C11": dict(level="exploration", technique="Go race detector + sequential-twin differential over recorded per-client results: concurrent clients on disjoint locations of a fresh engine (sys.System and HTTP) vs the same sequences run alone; barrier start, injected delays, watchdog",
    text="Rounds of 8-16 clients, each owning one location and starting with the engine's very first requests, are run concurrently under the race detector and compared request by request and by final state with a sequential run on another fresh engine; crashes, hangs and race reports are violations.",
@@ -40,7 +40,7 @@ CLAIMED = {
    text="Each script family (value, throwing, invalid, non-terminating, slow-but-finishing) is run as RunJavascript, as a rule condition and as a rule action under a location-control timeout, the system default and with timeouts disabled; non-terminating scripts must come back as failures not before and boundedly after the limit, throwing/invalid ones as errors, finishing ones with their value and exactly their bindings.",
    note="A hang is a violation only when a canary timer armed in the same runtime fired on time and the call is still blocked 12 s later; scripts blocked inside host functions are out of reach.", ref="§5 C14"),
  "C19": dict(level="exploration", technique="runtime matrix monitor with a twin-location differential: every operation x protection state x caller, before/after snapshots of raw storage and live items for refusals, unprotected twin for allowed calls",
-   text="All 25 operations (direct, via RunJavascript, via a rule action) are executed under all 6 protection states and 3 callers on generated contents of both state kinds; a refusal must be an error with byte-identical storage and live state, an allowed call must equal the unprotected twin; the finite matrix is enumerated completely per content seed.",
+   text="All 26 operations (direct, via RunJavascript, via a rule action, the self-removal of a triggered one-shot rule) are executed under all 6 protection states and 3 callers on generated contents of both state kinds; a refusal must be an error with byte-identical storage and live state, an allowed call must equal the unprotected twin; a second matrix issues 8 inherited reads at an unprotected child of a parent in 5 protection states: without the parent's read key nothing of the parent may be revealed; the finite matrices are enumerated completely per content seed.",
    note="Matrix as stated in DESIGN §5 C19 (RuleEnabled, GetParents, SetProp/RemProp and StateSize-when-disabled are outside it); core.Location level.", ref="§5 C19"),
  "C04": dict(level="exploration", technique="exactly-once / conservation monitor over three independent execution records (Env.out side channel, work tree, values) vs the expected multiset, run under the Go race detector",
    text="For generated worlds of rules, facts and events the multiset of action executions observed through a side channel, the returned work tree and the values list must all equal rules x when-bindings x condition-bindings x actions, each with the expected environment; failing actions must fail on their own node only; the race detector watches the concurrent action execution.",
